@@ -6,8 +6,8 @@
    mapping of saving is inverted by loading, and the only exceptions are the listed ones;
    (2) the id-table scheme and the cached lowered IR round-trip (C20/Intern.v, C20/IR.v).
    The property itself is decided on the code by the differential oracle of harness/h13 (h20). *)
-From Coq Require Import List String Bool.
-From C20 Require Import ShapeDefs ShapeCheck ShapeExceptions ShapeProofs.
+From Coq Require Import List String Bool Arith Lia.
+From C20 Require Import ShapeDefs ShapeCheck ShapeExceptions ShapeProofs Intern InternProofs IR IRProofs.
 From GenC20 Require Import Shape.
 Import ListNotations.
 Local Open Scope string_scope.
@@ -41,5 +41,60 @@ Proof.
   unfold shapes. repeat (first [left; reflexivity | right]).
 Qed.
 
+(* ---- the id-table scheme (C20/Intern.v): for every history of insertions into the tables, every
+   index that `new` handed out loads back, from the final tables, to the id it was handed out for ---- *)
+Theorem C20_intern_roundtrip : forall (xs : list val) (is : list nat) (st' : stab),
+  insert_all xs empty_tab = (is, st') ->
+  Forall2 (fun i x => embed_id (Intern.lookup st') i = Some x) is xs.
+Proof. exact intern_roundtrip. Qed.
+
+(* one step, from any table that satisfies the invariant (which every reachable table does) *)
+Theorem C20_intern_step : forall (v : val) (st : stab) (i : nat) (st' : stab),
+  tab_ok st -> new_id v st = (i, st') ->
+  tab_ok st' /\ extends (Intern.lookup st) (Intern.lookup st') /\ embed_id (Intern.lookup st') i = Some v.
+Proof. exact new_id_ok. Qed.
+
+(* the loader with the memo map returns what the plain loader returns *)
+Theorem C20_intern_memo_agrees : forall f lk i v memo' x,
+  embed_m f lk [] i = Some (v, memo') -> embed_id lk i = Some x -> v = x.
+Proof. exact embed_m_agrees. Qed.
+
+(* ---- the cached lowered IR (C20/IR.v): embed (new L) = L ---- *)
+Theorem C20_ir_roundtrip : forall (L : lowered) (st : stab) (C : clowered) (st' : stab),
+  tab_ok st -> wf_lowered L -> new_lowered L st = (C, st') ->
+  embed_lowered (Intern.lookup st') C = Some L.
+Proof. exact ir_roundtrip. Qed.
+
+(* non-vacuity: a function with two variables of a tuple type, a call, a match on an enum with two
+   arms, a goto with a remapping; saved into empty tables and loaded back *)
+Definition ex_ty := V 1 [V 2 []; V 2 []].
+Definition ex_loc (k : nat) := V 3 [V 4 [V k []]].
+Definition ex_fn := V 5 [ex_ty; V 6 []].
+Definition ex_lowered : lowered :=
+  mk_lowered
+    (mk_sig [ex_ty] [] (V 2 []) [V 7 []] true (ex_loc 0))
+    [mk_var (Some (V 8 [ex_ty])) None None (Some (V 9 [])) ex_ty (ex_loc 1);
+     mk_var None (Some (V 8 [V 2 []])) None None (V 2 []) (ex_loc 2)]
+    [mk_block [SCall ex_fn [mk_vu 0 (ex_loc 3)] false [1] (ex_loc 4) false; SConst (V 10 []) 1 true]
+              (EMatch (MEnum (V 11 [ex_ty]) (mk_vu 1 (ex_loc 5))
+                             [IR.mk_arm (V 12 []) 1 [0]; IR.mk_arm (V 13 []) 1 []] (ex_loc 6)));
+     mk_block [SSnapshot (mk_vu 0 (ex_loc 3)) 0 1] (EGoto 0 [(1, mk_vu 0 (ex_loc 1))])]
+    [0].
+
+Example C20_ir_example :
+  wf_lowered ex_lowered /\
+  (let r := new_lowered ex_lowered empty_tab in
+   embed_lowered (Intern.lookup (snd r)) (fst r) = Some ex_lowered
+   /\ List.length (Intern.lookup (snd r)) = 31).
+Proof.
+  split.
+  - unfold wf_lowered. cbn. repeat (first [split | constructor | discriminate | unfold wf_vu; cbn; lia]).
+  - vm_compute. split; reflexivity.
+Qed.
+
 Print Assumptions C20_shape_complete.
 Print Assumptions C20_shape_bijective.
+Print Assumptions C20_intern_roundtrip.
+Print Assumptions C20_intern_step.
+Print Assumptions C20_intern_memo_agrees.
+Print Assumptions C20_ir_roundtrip.
